@@ -1,8 +1,137 @@
 (** C12 property theorems (nothing else lives here). *)
-From Coq Require Import ZArith.
-From Ts Require Import Gen.TsFuns Packets TsProofs.
+From Coq Require Import ZArith List.
+From Ts Require Import Gen.TsFuns Gen.TsIkesa Packets TsModel TsProofs TsNet TsNarrow.
+Import ListNotations.
+Open Scope Z_scope.
 
+(** containment as implemented = inclusion of the denoted packet sets *)
 Theorem C12_subset_iff : forall a b, nonempty a ->
   (is_subset a b = true <-> forall p, denote a p -> denote b p).
 Proof. exact subset_iff. Qed.
 Print Assumptions C12_subset_iff.
+
+(** range -> network conversion gives back exactly the configured network and port (IPv4 and IPv6, every prefix;
+    holds for every port, in particular 0..65535) *)
+Theorem C12_network_roundtrip : forall version base prefix port proto,
+  valid_network version base prefix ->
+  get_network (from_network version base prefix port proto) = Some (base, prefix) /\
+  get_port (from_network version base prefix port proto) = port.
+Proof. exact network_roundtrip. Qed.
+Print Assumptions C12_network_roundtrip.
+
+(** the network handed to the kernel covers the whole address range and is the smallest network that does *)
+Theorem C12_get_network_covers : forall t, in_family t ->
+  exists b p, get_network t = Some (b, p) /\ 0 <= p <= ts_width t /\ b mod 2 ^ (ts_width t - p) = 0 /\
+    (forall a, start_addr t <= a <= end_addr t \/ end_addr t <= a <= start_addr t ->
+               b <= a <= b + 2 ^ (ts_width t - p) - 1) /\
+    (forall b' p', 0 <= p' <= ts_width t -> b' mod 2 ^ (ts_width t - p') = 0 ->
+        b' <= start_addr t <= b' + 2 ^ (ts_width t - p') - 1 -> b' <= end_addr t <= b' + 2 ^ (ts_width t - p') - 1 ->
+        p' <= p /\ b' <= b /\ b + 2 ^ (ts_width t - p) <= b' + 2 ^ (ts_width t - p')).
+Proof. exact get_network_covers. Qed.
+Print Assumptions C12_get_network_covers.
+
+(** policy lookup: the selectors returned are inside a proposed selector and inside the policy entry *)
+Theorem C12_narrowing : forall protect tsis tsrs c my_ts peer_ts,
+  get_ipsec_configuration protect tsis tsrs = Ok (c, my_ts, peer_ts) ->
+  In c protect /\
+  (exists tsi, In tsi tsis /\ is_subset peer_ts tsi = true) /\ is_subset peer_ts (c_peer_ts c) = true /\
+  (exists tsr, In tsr tsrs /\ is_subset my_ts tsr = true) /\ is_subset my_ts (c_my_ts c) = true.
+Proof. exact narrowing. Qed.
+Print Assumptions C12_narrowing.
+
+Theorem C12_narrowing_packets : forall protect tsis tsrs c my_ts peer_ts,
+  get_ipsec_configuration protect tsis tsrs = Ok (c, my_ts, peer_ts) ->
+  (forall p, denote peer_ts p -> (exists tsi, In tsi tsis /\ denote tsi p) /\ denote (c_peer_ts c) p) /\
+  (forall p, denote my_ts p -> (exists tsr, In tsr tsrs /\ denote tsr p) /\ denote (c_my_ts c) p).
+Proof. exact narrowing_packets. Qed.
+Print Assumptions C12_narrowing_packets.
+
+(** no policy entry comparable (neither larger nor smaller) with any proposed pair <-> TsUnacceptable *)
+Theorem C12_no_policy : forall protect tsis tsrs,
+  (forall tsi tsr c, In tsi tsis -> In tsr tsrs -> In c protect -> comparable tsi tsr c = false) <->
+  get_ipsec_configuration protect tsis tsrs = Raise TsUnacceptable.
+Proof. exact no_policy. Qed.
+Print Assumptions C12_no_policy.
+
+(** responder: what passes the selector and mode checks (and is then installed) *)
+Theorem C12_responder_installed : forall protect rekey tsis tsrs tn c ch,
+  responder_child protect rekey tsis tsrs tn = Ok (c, ch) ->
+  In c protect /\
+  (exists tsr, In tsr tsrs /\ is_subset (ch_tsi ch) tsr = true) /\ is_subset (ch_tsi ch) (c_my_ts c) = true /\
+  (exists tsi, In tsi tsis /\ is_subset (ch_tsr ch) tsi = true) /\ is_subset (ch_tsr ch) (c_peer_ts c) = true /\
+  c_mode c = requested_mode tn /\ ch_mode ch = requested_mode tn /\
+  (forall old_tsi old_tsr, rekey = Some (old_tsi, old_tsr) -> tsis = [old_tsr] /\ tsrs = [old_tsi]).
+Proof. exact responder_ok. Qed.
+Print Assumptions C12_responder_installed.
+
+(** mode: responder refuses a mode other than the policy's; initiator refuses a response in another mode *)
+Theorem C12_mode :
+  (forall protect rekey tsis tsrs tn c my_ts peer_ts,
+     get_ipsec_configuration protect tsis tsrs = Ok (c, my_ts, peer_ts) -> c_mode c <> requested_mode tn ->
+     responder_child protect rekey tsis tsrs tn = Raise TsUnacceptable) /\
+  (forall my_mode otsi otsr tn rtsi rtsr,
+     response_mode tn <> my_mode -> initiator_child my_mode otsi otsr tn rtsi rtsr = Raise TsUnacceptable).
+Proof. split; [exact responder_mode_refused | exact initiator_mode_refused]. Qed.
+Print Assumptions C12_mode.
+
+Theorem C12_no_policy_refused : forall protect rekey tsis tsrs tn,
+  (forall tsi tsr c, In tsi tsis -> In tsr tsrs -> In c protect -> comparable tsi tsr c = false) ->
+  responder_child protect rekey tsis tsrs tn = Raise TsUnacceptable.
+Proof. exact responder_no_policy_refused. Qed.
+Print Assumptions C12_no_policy_refused.
+
+(** initiator: an installed response keeps the mode and narrows the offer; a widened one is refused *)
+Theorem C12_initiator_narrow : forall my_mode otsi otsr tn rtsi rtsr ch,
+  initiator_child my_mode otsi otsr tn rtsi rtsr = Ok ch ->
+  my_mode = response_mode tn /\ ch_mode ch = my_mode /\
+  (exists r1, rtsi = ch_tsi ch :: r1) /\ (exists r2, rtsr = ch_tsr ch :: r2) /\
+  (exists x, In x otsi /\ is_subset (ch_tsi ch) x = true) /\ (exists y, In y otsr /\ is_subset (ch_tsr ch) y = true).
+Proof. exact initiator_ok. Qed.
+Print Assumptions C12_initiator_narrow.
+
+Theorem C12_initiator_widened_refused : forall my_mode otsi otsr tn ci r1 cr r2,
+  (forall x, In x otsi -> is_subset ci x = false) \/ (forall y, In y otsr -> is_subset cr y = false) ->
+  exists e, initiator_child my_mode otsi otsr tn (ci :: r1) (cr :: r2) = Raise e.
+Proof. exact initiator_widened_refused. Qed.
+Print Assumptions C12_initiator_widened_refused.
+
+(** rekey: refused unless the request carries exactly the replaced SA's selectors *)
+Theorem C12_rekey_refused : forall protect old_tsi old_tsr tsis tsrs tn,
+  tsis <> [old_tsr] \/ tsrs <> [old_tsi] ->
+  responder_child protect (Some (old_tsi, old_tsr)) tsis tsrs tn = Raise TsUnacceptable.
+Proof. exact rekey_refused. Qed.
+Print Assumptions C12_rekey_refused.
+
+(** rekey: what is installed - decided by the first policy entry comparable with the replaced SA's selectors;
+    never wider than the replaced SA's *)
+Theorem C12_rekey_installed : forall protect old_tsi old_tsr tsis tsrs tn c ch,
+  responder_child protect (Some (old_tsi, old_tsr)) tsis tsrs tn = Ok (c, ch) ->
+  exists pre post, protect = pre ++ c :: post /\
+    (forall c', In c' pre -> comparable old_tsr old_tsi c' = false) /\
+    ((larger_rule old_tsr old_tsi c = true /\ ch_tsi ch = old_tsi /\ ch_tsr ch = old_tsr) \/
+     (larger_rule old_tsr old_tsi c = false /\ smaller_rule old_tsr old_tsi c = true /\
+      ch_tsi ch = c_my_ts c /\ ch_tsr ch = c_peer_ts c)) /\
+    is_subset (ch_tsi ch) old_tsi = true /\ is_subset (ch_tsr ch) old_tsr = true.
+Proof. exact rekey_installed. Qed.
+Print Assumptions C12_rekey_installed.
+
+(** FULL STATEMENT (property text "for a rekey they equal those of the replaced SA"):
+      responder_child protect (Some (old_tsi, old_tsr)) tsis tsrs tn = Ok (c, ch) -> ch_tsi ch = old_tsi /\ ch_tsr ch = old_tsr
+    It is FALSE of the faithful model (C12_rekey_same_refuted below, replayed on the real code by the check).
+    Proved: equality when the replaced SA's selectors lie inside a policy entry and no earlier entry is comparable
+    with them (e.g. every single-entry policy). *)
+Theorem C12_rekey_same_partial : forall pre c0 post old_tsi old_tsr tn,
+  (forall c', In c' pre -> comparable old_tsr old_tsi c' = false) ->
+  is_subset old_tsr (c_peer_ts c0) = true -> is_subset old_tsi (c_my_ts c0) = true -> c_mode c0 = requested_mode tn ->
+  responder_child (pre ++ c0 :: post) (Some (old_tsi, old_tsr)) [old_tsr] [old_tsi] tn =
+  Ok (c0, {| ch_tsi := old_tsi; ch_tsr := old_tsr; ch_mode := requested_mode tn |}).
+Proof. exact rekey_same_partial. Qed.
+Print Assumptions C12_rekey_same_partial.
+
+Theorem C12_rekey_same_refuted :
+  exists protect old_tsi old_tsr tn c ch,
+    (exists c0, In c0 protect /\ old_tsi = c_my_ts c0 /\ old_tsr = c_peer_ts c0) /\
+    responder_child protect (Some (old_tsi, old_tsr)) [old_tsr] [old_tsi] tn = Ok (c, ch) /\
+    ch_tsi ch <> old_tsi /\ ch_tsr ch <> old_tsr.
+Proof. exact rekey_same_refuted. Qed.
+Print Assumptions C12_rekey_same_refuted.
